@@ -709,7 +709,18 @@ func (vf *VerifyFunc) next(st *State, fr *Frame, x *ssa.Next) *Val {
 	return &Val{T: x.Type(), Fs: []*Val{boolVal(ok), kv, vv}}
 }
 
+// yield: at a blocking point other goroutines run; locations named in the contract's rely clause may have changed.
+func (vf *VerifyFunc) yield(st *State) {
+	if vf.fc == nil || len(vf.fc.Relies) == 0 || len(st.frames) != 1 {
+		return
+	}
+	for _, m := range vf.fc.Relies {
+		vf.havocLoc(st, vf.fc, m, vf.env)
+	}
+}
+
 func (vf *VerifyFunc) chanOp(st *State, fr *Frame, ch *Val, op string, in ssa.Instruction) {
+	vf.yield(st)
 	if vf.nopanic || vf.fc != nil && vf.fc.Flags["nilchan"] {
 		st.check("nilchan", op+"@"+st.pos(in), "", op+" on nil channel blocks forever", st.pos(in), not(eq(ch.Tm, "0")))
 	}
@@ -726,6 +737,9 @@ func (vf *VerifyFunc) selectOp(st *State, fr *Frame, x *ssa.Select) *Val {
 		lo = "(- 1)"
 	}
 	st.assume("(and (<= " + lo + " " + idx + ") (< " + idx + " " + fmt.Sprint(len(x.States)) + "))")
+	if x.Blocking {
+		vf.yield(st)
+	}
 	if x.Blocking && vf.fc != nil && vf.fc.Flags["nonblocking"] && len(st.frames) == 1 {
 		st.check("nonblock", "select@"+st.pos(x), "C12", "blocking select in a function declared nonblocking", st.pos(x), "false")
 	}
